@@ -40,8 +40,17 @@ THEOREMS = [
          "valid parameters (ph.Valid), constants c = ph.consts and dt != 0, a recorded transition of a vial whose ice "
          "fraction is in [0,1) is one of the three; the next column (or, after the last column, the final state) is the "
          "step function of the column. (C06's run theorems supply sigma in [0,1) unconditionally up to the first column "
-         "with ice, for uncoupled vials and for processes starting at or below the liquidus; those compositions are not "
-         "stated as separate theorems.)", strength="full"),
+         "with ice, for uncoupled vials and for processes starting at or below the liquidus; the compositions for the last two are "
+         "run_trichotomy_uncoupled and run_trichotomy_below_liquidus.)", strength="full"),
+    dict(name="Snow.C01.run_trichotomy_below_liquidus", clause="RUN level, NOTHING monitored: for a process that starts at or "
+         "below the liquidus (T_k_0 <= T_eq_l, shelf start <= T_eq_l) inside the stability range and under the static "
+         "inequality StaticSide, every recorded transition of every vial in every column is one of the three and the next "
+         "column is the step function (run_transition_of_range + C06.run_bounds_below_liquidus; no per-step side condition)",
+         strength="full"),
+    dict(name="Snow.C01.run_trichotomy_uncoupled", clause="RUN level, NOTHING monitored: for thermally uncoupled vials "
+         "(k_int*A = 0), any start temperature inside the stability range, every recorded transition of every vial in every "
+         "column is one of the three (run_transition_of_range + C06.run_bounds_uncoupled; no per-step side condition)",
+         strength="full"),
     dict(name="Snow.C01.run_uses_shape", clause="a run whose parameters are built by Params.withShape (what the driver "
          "does for the configured arrangement and shape) uses, in every step and for every vial, the geometric heat "
          "flow of q_refines_shape, and its inter-vial heat cancels (heat_cancels_shape)", strength="full"),
@@ -59,6 +68,9 @@ THEOREMS = [
          "lower-cased string only", strength="full"),
     dict(name="Snow.C01.nonvacuous_run", clause="run_trichotomy_partial applied to the concrete run with ice of "
          "C06.nonvacuous_run (the solidifying transition column 1 -> 2)", strength="nonvacuity"),
+    dict(name="Snow.C01.nonvacuous_uncoupled", clause="run_trichotomy_uncoupled applied to the same concrete run (one vial, "
+         "k_int = 0): hypotheses satisfiable, conclusion = the solidifying transition column 1 -> 2, no side condition "
+         "supplied", strength="nonvacuity"),
     dict(name="Snow.C01.nonvacuous", clause="hypotheses are satisfiable (default 5 wt.% sucrose constants)",
          strength="nonvacuity"),
 ]
